@@ -1338,8 +1338,10 @@ def replay(pid, path, keys):
         evs = [tuple(int(x) for x in l.split(":")) for l in open(evf).read().split()]
         verdict, st = lean_replay(E.model_exe(), annotate(evs, workers), workers, plan == "ConcurrentImmix")
         orc = oracle(evs, 0, [], stages, None)
-        print(f"recorded log: monitor: {verdict[:300]} oracle: {orc}")
-        if verdict.startswith("viol") or orc:
+        rv, _ = lean_req_replay(E.model_exe(), req_tokens(evs))
+        orc += oracle_requesters([], [], evs, True, plan == "ConcurrentImmix")[0]
+        print(f"recorded log: monitor: {verdict[:300]} requester monitor: {rv[:300]} oracle: {orc}")
+        if verdict.startswith("viol") or rv.startswith("viol") or orc:
             bad += 1
     for attempt in range(5):
         p = subprocess.run([exe], input="\n".join(lines) + "\n", capture_output=True, text=True, timeout=300)
@@ -1348,8 +1350,11 @@ def replay(pid, path, keys):
         verdict, st = lean_replay(E.model_exe(), annotate(evs, workers), workers, plan == "ConcurrentImmix")
         cons = constraints_of(out)
         orc = oracle(evs, p.returncode, out, stages, cons.get("fwdafterliveness") in ("1", "true"))
-        print(f"run {attempt}: rc={p.returncode} monitor: {verdict[:300]} oracle: {orc}")
-        if verdict.startswith("viol") or orc:
+        rv, _ = lean_req_replay(E.model_exe(), req_tokens(evs))
+        orc += oracle_requesters(lines, out, evs, cons.get("collects", "1") in ("1", "true"),
+                                 cons.get("concurrent") in ("1", "true"))[0]
+        print(f"run {attempt}: rc={p.returncode} monitor: {verdict[:300]} requester monitor: {rv[:300]} oracle: {orc}")
+        if verdict.startswith("viol") or rv.startswith("viol") or orc:
             bad += 1
     print("REPLAY:", "violation reproduced" if bad else "no longer reproduces (5 runs; schedules vary)")
     return 1 if bad else 0
